@@ -52,6 +52,19 @@ ROUND5 = {
  "C20": " Fifth round: callPrimary's rediscovery does not depend on the state of the other endpoints.",
 }
 
+# techniques added by the fifth round (appended to the technique string)
+TECH5 = {
+ "C01": "; finite order model of the client's snapshot pairing",
+ "C02": "; finite order model of the client's snapshot pairing",
+ "C03": "; finite order model of the handler's admission tests; pool-escape alias rule",
+ "C05": "; order model of the counter refresh; pool-escape alias rule",
+ "C08": "; finite order model of Restore's refusals; release-error-only early returns",
+ "C10": "; call-graph confinement of FSM state; pool-escape alias rule",
+ "C13": "; finite order model of snapshot pairing; pool-escape alias rule; borrowed-buffer escape",
+ "C15": "; pool-escape alias rule",
+ "C17": "; pool-escape alias rule; goroutine-copy rule",
+}
+
 def claim(id, ref, technique, text, note):
     CLAIMED[id] = (ref, technique, text, note)
 
@@ -164,7 +177,7 @@ def main():
             "engine": "qedlint",
             "level_claimed": {"category": "other", "text": text, "design_ref": ref},
             "level_note": note,
-            "technique": tech,
+            "technique": tech + TECH5.get(id, ''),
         })
     na = [{"property_id": id, "reason": NA.get(id, NOT_YET)} for id in ALL if id not in CLAIMED]
     m = {
